@@ -10,7 +10,8 @@ package obiapat
 //      hits of the pattern on the reverse-complemented sequence;
 //  (3) indel mode: AllMatches reports a hit iff some substring lies within the edit budget; every span lies inside the
 //      sequence and its error count is the edit distance between the pattern and the span, within the budget;
-//      BestMatch's span lies inside the sequence with the same guarantee.
+//      BestMatch's span lies inside the sequence with the same guarantee;
+//  (4) reverse-complementing a pattern does not change the pattern it was built from, is repeatable and involutive.
 // Injected into pkg/obiapat with `go test -overlay`; nothing is written into the repository.
 
 import (
@@ -102,6 +103,27 @@ func TestVerifBoundedPatternMatcher(t *testing.T) {
 				continue
 			}
 			pi, erri := MakeApatPattern(pat, maxerr, true)
+			// (4) building a reverse complement leaves the pattern it was built from unchanged: same text, a second
+			// reverse complement gives the same result, complementing twice gives the pattern back; the indel pattern
+			// is complemented BEFORE it is used below, so that its own re-alignment text is exercised afterwards
+			before := p.String()
+			if cp2, err2 := p.ReverseComplement(); err2 == nil {
+				if cp2.String() != cp.String() {
+					fail(fmt.Sprintf("pattern=%s,maxerr=%d:second-reverse-complement=%s,first=%s", pat, maxerr, cp2.String(), cp.String()))
+				}
+			}
+			if p.String() != before {
+				fail(fmt.Sprintf("pattern=%s,maxerr=%d:pattern-changed-by-reverse-complement=%s", pat, maxerr, p.String()))
+			}
+			if ccp, err3 := cp.ReverseComplement(); err3 == nil && ccp.String() != before {
+				fail(fmt.Sprintf("pattern=%s,maxerr=%d:double-reverse-complement=%s", pat, maxerr, ccp.String()))
+			}
+			if erri == nil {
+				bi := pi.String()
+				if _, err4 := pi.ReverseComplement(); err4 == nil && pi.String() != bi {
+					fail(fmt.Sprintf("pattern=%s,maxerr=%d:indel-pattern-changed-by-reverse-complement=%s", pat, maxerr, pi.String()))
+				}
+			}
 			for _, s := range seqs {
 				if len(s) <= len(pat) {
 					continue
